@@ -374,3 +374,10 @@ mod tcp {
         }
     }
 }
+
+#[cfg(feature = "verif")]
+#[allow(unused_imports)]
+pub mod verif {
+    pub use super::tcp::PayloadCodec;
+    pub use super::tcp::ServerContext;
+}
